@@ -5,6 +5,7 @@ import (
 	"encoding/base64"
 	"fmt"
 	"math/rand"
+	"os"
 	"regexp"
 	"sort"
 	"strings"
@@ -173,6 +174,8 @@ func leak(text string, secrets []string) string {
 	}
 	return ""
 }
+
+var strictCapEnd = os.Getenv("VERIF_C09_STRICT") == "1"
 
 func isBarrier(l string) bool { return strings.HasPrefix(l, "PONG vb") }
 
@@ -415,6 +418,15 @@ func runSession(c Case) Result {
 				if authStarted {
 					capMarks["ack"+map[bool]string{true: "-nosasl", false: ""}[excused]] = true
 				}
+			}
+			// VERIF_C09_STRICT=1 (off by default; see notes/proposed-fixes/c09-cap-end-during-auth.md):
+			// also report the two excused shapes a server can produce during the exchange.
+			if strictCapEnd && capEnd && authStarted && !sawSuccess && saslOn && mech != nil && excused {
+				cls := "cap-end-on-nak-during-auth"
+				if sub != "NAK" {
+					cls = "cap-end-on-empty-ls-during-auth"
+				}
+				fail(cls, "CAP END written on %q while authentication was in progress", strings.ReplaceAll(st, "\x00", " "))
 			}
 			if capEnd && authStarted && !sawSuccess && !excused {
 				fail("cap-end-without-success", "CAP END written on %q while authentication was in progress (sasl acknowledged, no 903 yet)", strings.ReplaceAll(st, "\x00", " "))
